@@ -72,12 +72,44 @@ def find_parser(w, update_fn):
     return best[0]
 
 
+_EFF = {}
+
+
+def summaries(w):
+    if id(w) not in _EFF:
+        _EFF[id(w)] = effects.Effects(w)
+    return _EFF[id(w)]
+
+
 def run_fn(w, fn, models=None, entry=0, **kw):
     b = body(w, fn)
-    it = absint.Interp(w, b, models=models if models is not None else effects.EXTRA_MODELS)
+    it = absint.Interp(w, b, models=models if models is not None else effects.EXTRA_MODELS, summaries=summaries(w))
     outs = it.run(entry, **kw)
     return b, it, outs
 
 
 def fpath(i, *fields):
     return (("A", i),) + tuple(("f", f) for f in fields)
+
+
+def all_calls(outs, pred=None):
+    """call events of all explored paths (incl. loop back-edge paths), de-duplicated by (bb, callee, args)"""
+    seen = {}
+    for o in outs:
+        for e in o.trace:
+            if e[0] == "call" and (pred is None or pred(e)):
+                seen.setdefault((e[1], e[2], e[3]), (e, o))
+    return list(seen.values())
+
+
+def static_calls(w, fn_prefix, include_closures=True):
+    """[(body, bb, term)] for every call terminator in fn and (optionally) its closures"""
+    out = []
+    for k, bs in w.bodies.items():
+        if k == fn_prefix or (include_closures and k.startswith(fn_prefix + "::{closure")):
+            for bd in bs:
+                if bd.promoted is not None:
+                    continue
+                for bb, t in cfgmod.calls(bd):
+                    out.append((bd, bb, t))
+    return out
